@@ -17,7 +17,12 @@ def run(ctx, res):
     C09.cover_rule(ctx, res, "C10.cover")
     C06.model_rule(ctx, res, rule="C10.total", ops={"canonicalize_with"})
     writes_rule(ctx, res)
-    res.notes.append("not decided: idempotence and spelling-independence of the numeric step (json-number / ryu-js); whitespace and escape independence are C01/C02")
+    # "documents that differ only in whitespace ... or in how string characters are escaped have identical canonical output":
+    # the parser side of that clause is that the value depends on the document's abstract content only (P = R on the outputs)
+    from .. import parsercheck
+    res.rules_run.append("C10.parse (the strict parser's value is the document's abstract content - product findings on the output channels: whitespace is ignored, every escape spelling of a character decodes to that character, numbers and structure as written)")
+    parsercheck.apply(ctx, res, ["C02.", "E2."], strict_only=True, rename="C10.parse")
+    res.notes.append("not decided: idempotence and spelling-independence of the numeric step (json-number / ryu-js)")
 
 
 def writes_rule(ctx, res):
